@@ -1,11 +1,12 @@
 (* Model of twisted.internet.defer.Deferred as far as testtools.twistedsupport's
-   matchers use it (C20): a Deferred is unfired, fired with a value or failed
-   with an exception; it has a chain of (callback, errback) pairs; callbacks run
-   as soon as a result is available (_runCallbacks); the "handled" flag of the
-   property is DebugInfo.failResult being cleared, i.e. the current result not
-   being a Failure.  Callbacks are drawn from a small language (pass through,
-   constant, raise, record what was seen); they never return Deferreds, so
-   chaining/pausing is not modelled.  Definitions only. *)
+   matchers use it (C20): a Deferred is unfired, or fired; a fired one either has
+   a current result (a value or a Failure) or has none yet because its callback
+   chain is paused (pause()) or waits for an unfired Deferred that a callback
+   returned; it has a chain of (callback, errback) pairs; callbacks run as soon as
+   a result is available and the chain is not paused (_runCallbacks); the
+   "handled" flag of the property is DebugInfo.failResult being clear.
+   Callbacks are drawn from a small language (pass through, constant, raise,
+   record what was seen, return a fresh unfired Deferred).  Definitions only. *)
 From TT Require Import Lib.Base.
 
 (* values are tokens; 0 is None *)
@@ -16,66 +17,109 @@ Inductive cbfun :=
 | CConst (v : nat)      (* return v *)
 | CRaise (e : nat)      (* raise exception e *)
 | CRec (tag : nat)      (* note what was seen, return it unchanged *)
-| CRecNone (tag : nat). (* note what was seen, return None *)
+| CRecNone (tag : nat)  (* note what was seen, return None *)
+| CWait.                (* return a fresh unfired Deferred: the chain waits until it fires (see resume) *)
 
 Definition cbpair := (cbfun * cbfun)%type.            (* (callback, errback) *)
 
 Record deferred := mkD {
   d_called : bool;
-  d_result : option dres;                             (* current result *)
-  d_callbacks : list cbpair                           (* pending chain *)
+  d_result : option dres;                             (* current result (None: unfired, or waiting) *)
+  d_callbacks : list cbpair;                          (* pending chain *)
+  d_paused : nat;                                     (* explicit pause() count *)
+  d_waiting : bool;                                   (* chained to an unfired Deferred returned by a callback *)
+  d_debugfail : bool                                  (* DebugInfo.failResult is set *)
 }.
-Definition new_deferred := mkD false None [].
+Definition new_deferred := mkD false None [] 0 false false.
 
 Definition log := list (nat * dres).                  (* what the recording callbacks saw, in order *)
 
-Definition apply_cb (f : cbfun) (x : dres) (lg : log) : dres * log :=
+Definition is_rerr (x : dres) : bool := match x with RErr _ => true | RVal _ => false end.
+
+(* None: the function returned an unfired Deferred *)
+Definition apply_cb (f : cbfun) (x : dres) (lg : log) : option dres * log :=
   match f with
-  | CPass => (x, lg)
-  | CConst v => (RVal v, lg)
-  | CRaise e => (RErr e, lg)
-  | CRec t => (x, lg ++ [(t, x)])
-  | CRecNone t => (RVal 0, lg ++ [(t, x)])
+  | CPass => (Some x, lg)
+  | CConst v => (Some (RVal v), lg)
+  | CRaise e => (Some (RErr e), lg)
+  | CRec t => (Some x, lg ++ [(t, x)])
+  | CRecNone t => (Some (RVal 0), lg ++ [(t, x)])
+  | CWait => (None, lg)
   end.
 
-Definition step_cb (p : cbpair) (x : dres) (lg : log) : dres * log :=
+Definition step_cb (p : cbpair) (x : dres) (lg : log) : option dres * log :=
   match x with
   | RVal _ => apply_cb (fst p) x lg
   | RErr _ => apply_cb (snd p) x lg
   end.
 
-Fixpoint run_cbs (cbs : list cbpair) (x : dres) (lg : log) : dres * log :=
+(* run the chain: (Some last result | None = now waiting, callbacks left, log) *)
+Fixpoint run_cbs (cbs : list cbpair) (x : dres) (lg : log) : option dres * list cbpair * log :=
   match cbs with
-  | [] => (x, lg)
-  | p :: r => let '(y, lg') := step_cb p x lg in run_cbs r y lg'
+  | [] => (Some x, [], lg)
+  | p :: r => match step_cb p x lg with
+              | (Some y, lg') => run_cbs r y lg'
+              | (None, lg') => (None, r, lg')
+              end
   end.
 
-(* Deferred._runCallbacks *)
+(* a result can be handed to callbacks right now *)
+Definition runnable (d : deferred) : bool :=
+  d_called d && Nat.eqb (d_paused d) 0 && negb (d_waiting d).
+
+(* Deferred._runCallbacks: nothing while paused / waiting / unfired; at the end the DebugInfo
+   remembers a Failure result *)
 Definition run_callbacks (d : deferred) (lg : log) : deferred * log :=
-  match d_result d with
-  | Some x => let '(y, lg') := run_cbs (d_callbacks d) x lg in (mkD (d_called d) (Some y) [], lg')
-  | None => (d, lg)
-  end.
+  if runnable d then
+    match d_result d with
+    | Some x =>
+        match run_cbs (d_callbacks d) x lg with
+        | (Some y, rest, lg') => (mkD true (Some y) rest 0 false (is_rerr y), lg')
+        | (None, rest, lg') => (mkD true None rest 0 true false, lg')
+        end
+    | None => (d, lg)
+    end
+  else (d, lg).
 
 (* Deferred.addCallbacks *)
 Definition add_callbacks (p : cbpair) (d : deferred) (lg : log) : deferred * log :=
-  run_callbacks (mkD (d_called d) (d_result d) (d_callbacks d ++ [p])) lg.
+  run_callbacks (mkD (d_called d) (d_result d) (d_callbacks d ++ [p]) (d_paused d) (d_waiting d) (d_debugfail d)) lg.
 
 (* Deferred.callback / errback: None = AlreadyCalledError *)
 Definition fire (x : dres) (d : deferred) (lg : log) : option (deferred * log) :=
   if d_called d then None
-  else Some (run_callbacks (mkD true (Some x) (d_callbacks d)) lg).
+  else Some (run_callbacks (mkD true (Some x) (d_callbacks d) (d_paused d) (d_waiting d) (d_debugfail d)) lg).
 
-(* what inspection of the object shows *)
-Inductive dstate := SUnfired | SVal (v : nat) | SErr (e : nat).
-Definition state_of (d : deferred) : dstate :=
-  match d_result d with
-  | None => SUnfired
-  | Some (RVal v) => SVal v
-  | Some (RErr e) => SErr e
+(* Deferred.pause / unpause (the harness calls unpause only after a pause of its own) *)
+Definition pause (d : deferred) : deferred :=
+  mkD (d_called d) (d_result d) (d_callbacks d) (S (d_paused d)) (d_waiting d) (d_debugfail d).
+Definition unpause (d : deferred) (lg : log) : deferred * log :=
+  match d_paused d with
+  | 0 => (d, lg)
+  | S k => run_callbacks (mkD (d_called d) (d_result d) (d_callbacks d) k (d_waiting d) (d_debugfail d)) lg
   end.
 
+(* the Deferred the chain is waiting for fires with x: its result is handed over and the chain goes on *)
+Definition resume (x : dres) (d : deferred) (lg : log) : deferred * log :=
+  if d_waiting d
+  then run_callbacks (mkD (d_called d) (Some x) (d_callbacks d) (d_paused d) false (d_debugfail d)) lg
+  else (d, lg).
+
+(* what inspection of the object shows *)
+Inductive dstate :=
+| SUnfired
+| SWaiting              (* callback()/errback() was called, but no result is available: paused or chained *)
+| SVal (v : nat)
+| SErr (e : nat).
+Definition state_of (d : deferred) : dstate :=
+  if negb (d_called d) then SUnfired
+  else if negb (runnable d) then SWaiting
+  else match d_result d with
+       | Some (RVal v) => SVal v
+       | Some (RErr e) => SErr e
+       | None => SWaiting
+       end.
+
 (* would DebugInfo.__del__ log "Unhandled error in Deferred" if the Deferred were dropped now *)
-Definition unhandled (d : deferred) : bool :=
-  match d_result d with Some (RErr _) => true | _ => false end.
+Definition unhandled (d : deferred) : bool := d_debugfail d.
 Definition handled (d : deferred) : bool := negb (unhandled d).
